@@ -177,6 +177,14 @@ func (l *IOLog) handlePoint(name string, key []byte) {
 	}
 }
 
+// SetOnEvent installs (or with nil removes) the I/O event callback; safe while
+// other goroutines are inside the engine.
+func (l *IOLog) SetOnEvent(fn func(ev Event)) {
+	l.mu.Lock()
+	l.OnEvent = fn
+	l.mu.Unlock()
+}
+
 // SetOnPoint installs (or with nil removes) the point callback; safe while
 // other goroutines are inside the engine.
 func (l *IOLog) SetOnPoint(fn func(name string, key []byte)) {
